@@ -31,6 +31,11 @@ def stopped_streams(c, rng, tier, results):
         for l in gen.batch(rng.next(), prof, n, f"c08s_{prof}_", ("random", "rr", "pct")):
             if l.startswith("config "):
                 l = l.replace("steps=none", "steps=cont:%d" % (2 + rng.below(9)))
+            elif l.startswith("run "):
+                # one execution per run: an execution abandoned in the middle of a panic leaks the OS thread's panic
+                # count into the next one (known finding F19, decided by C14) — not what this stream is about
+                t = l[4:].split(":")
+                l = "run " + ":".join(t[:-1] + ["1"]) if t[0] in ("random", "pct", "urw") else "run rr:1"
             lines.append(l)
         res["stopped_" + prof] = run_stream("c08s_" + prof, lines, "trace")
     bad = apply_oracle(res, o_stopped) + apply_oracle(res, oracles.o_contract)
